@@ -296,9 +296,9 @@ func (s *sys) Apply(ev string) error {
 				}
 			}
 		}
-		if c.Kind == "rtsp" {
+		if c.Rtsp != nil {
 			if strings.HasPrefix(ev, "P") && !st.everStall && len(P) > pubBefore && c.RtpPkts == st.rtpBefore {
-				s.add("healthy-consumer-delayed/rtsp", "no RTP packet reached consumer %d (rtsp), which has never stalled, while %s was published", c.ID, ev)
+				s.add("healthy-consumer-delayed/"+c.Kind, "no RTP packet reached consumer %d (%s), which has never stalled, while %s was published", c.ID, c.Kind, ev)
 			}
 		} else if strings.HasPrefix(ev, "P") && !st.everStall && c.Kind != "ts" && len(P) > pubBefore && !gated {
 			if !seen[len(P)-1] {
@@ -308,7 +308,7 @@ func (s *sys) Apply(ev string) error {
 		// whole units only: a reading consumer with nothing queued has received a byte stream that ends
 		// at a unit boundary
 		if c.Rtsp != nil && !st.stalled && cn.Pending() == 0 && c.Rtsp.Residue() > 0 {
-			s.add("framing/rtsp", "consumer %d (rtsp, stalled before: %v) is reading and nothing is queued, but the bytes it received end %d bytes into an interleaved frame or message", c.ID, st.everStall, c.Rtsp.Residue())
+			s.add("framing/"+c.Kind, "consumer %d (%s, stalled before: %v) is reading and nothing is queued, but the bytes it received end %d bytes into an interleaved frame, message or WebSocket frame", c.ID, c.Kind, st.everStall, c.Rtsp.Residue())
 		}
 		// a healthy consumer has nothing queued once the step has settled
 		if !st.stalled && cn.Pending() > 0 {
@@ -322,7 +322,7 @@ func (s *sys) Apply(ev string) error {
 		// (an RTSP subscriber's liveness is judged by lal from the packets it accepted for it, not from the
 		// bytes that reached the socket: while its queue still has room it counts as alive, so only the
 		// full-queue rule above applies to it)
-		if st.stalled && st.stallTicks >= 4 && c.Kind != "rtsp" {
+		if st.stalled && st.stallTicks >= 4 && c.Rtsp == nil {
 			s.add("stalled-consumer-not-disconnected/"+c.Kind, "consumer %d (%s) has not read for %d ticks (liveness check every tick) and is still attached", c.ID, c.Kind, st.stallTicks)
 		}
 	}
@@ -384,6 +384,7 @@ func configs(r *vk.Run) []cfg {
 		{Name: "wsflv+ts", Kinds: []string{"wsflv", "ts"}, MaxCons: 2},
 		{Name: "rtmp-video", Kinds: []string{"rtmp"}, MaxCons: 2, Video: true},
 		{Name: "rtsp", Kinds: []string{"rtsp"}, MaxCons: 1, Video: true, Rtsp: true},
+		{Name: "wsrtsp", Kinds: []string{"wsrtsp"}, MaxCons: 1, Video: true, Rtsp: true},
 	}
 	if !r.Quick() {
 		cs = append(cs, cfg{Name: "all-kinds", Kinds: []string{"rtmp", "flv", "wsflv", "ts"}, MaxCons: 3},
@@ -402,7 +403,7 @@ func main() {
 	httpts.SubSessionWriteChanSize = queueSize
 	rtsp.VerifSetWriteChanSize(queueSize)
 	base.LogicCheckSessionAliveIntervalSec = 1
-	r.Rule("states = distinct canonical fingerprints (server dump, per session whether its byte counters moved since the last liveness check, per consumer: stalled, ever stalled, ticks since the stall, queued writes, blocked writers) reached by event sequences over {P:aac|inter|key, P5, J:rtmp|flv|wsflv|ts|rtsp, S:i (consumer i stops reading), R:i (resumes), X:i (the blocked write's deadline expires), T}; write queues are enabled with size 6 and P5 publishes five frames in a row so that queue-full instants are reached within the depth bound. distinct_nontrivial = states")
+	r.Rule("states = distinct canonical fingerprints (server dump, per session whether its byte counters moved since the last liveness check, per consumer: stalled, ever stalled, ticks since the stall, queued writes, blocked writers) reached by event sequences over {P:aac|inter|key, P5, J:rtmp|flv|wsflv|ts|rtsp|wsrtsp, S:i (consumer i stops reading), R:i (resumes), X:i (the blocked write's deadline expires), T}; write queues are enabled with size 6 and P5 publishes five frames in a row so that queue-full instants are reached within the depth bound. distinct_nontrivial = states")
 	r.Assume("the asynchronous write queues of naza's connection are instrumented (generated copy, see tools/vgen): the in-memory connection knows how many queued writes are outstanding, so a step is settled exactly when every queue is drained or its writer is blocked on the stalled peer",
 		"'never delays by more than a small bound' is decided as: the step in which the publisher's message is processed settles with the message delivered to every consumer that has never stalled and with the publisher's session idle again",
 		"write deadlines do not fire by themselves (no real-time timers in an execution): X:i is the event 'the deadline of the blocked write expires'",
